@@ -48,11 +48,11 @@ func init() {
 		Controls: []core.Control{
 			{Name: "sload8-64bit-for-i32", File: "internal/engine/wazevo/backend/isa/amd64/machine.go", Old: "\tcase op == ssa.OpcodeSload8 && !dst64bit:\n\t\tload.asMovsxRmR(extModeBL, mem, dst)", New: "\tcase op == ssa.OpcodeSload8 && !dst64bit:\n\t\tload.asMovsxRmR(extModeBQ, mem, dst)", Rule: "R02.11", Substr: "lowerExtLoad"},
 			{Name: "shared-base-withheld-while-empty", File: "internal/engine/wazevo/module_engine.go", Old: "\tif cap(mem.Buffer) > 0 {", New: "\tif len(mem.Buffer) > 0 {", Rule: "R02.12", Substr: "putLocalMemory"},
-			{Name: "imported-memory-length-32bit", File: "internal/engine/wazevo/frontend/lower.go", Old: "\t\t\tloadBufSizePtr.AsLoad(memInstPtr, memoryInstanceBufSizeOffset, ssa.TypeI64)", New: "\t\t\tloadBufSizePtr.AsExtLoad(ssa.OpcodeUload32, memInstPtr, memoryInstanceBufSizeOffset, true)", Rule: "R02.10", Substr: "getMemoryLenValue"},
+			{Name: "imported-memory-length-32bit", File: "internal/engine/wazevo/frontend/lower.go", Old: "\t\t\tloadBufSizePtr.AsLoad(memInstPtr, memoryInstanceBufSizeOffset, ssa.TypeI64)", New: "\t\t\tloadBufSizePtr.AsExtLoad(ssa.OpcodeUload32, memInstPtr, memoryInstanceBufSizeOffset, true)", Rule: "R02.10", Substr: "imported memory"},
 			{Name: "store64-lane-checked-as-4", File: "internal/engine/wazevo/frontend/lower.go", Old: "storeOp, lane, opSize = ssa.OpcodeStore, ssa.VecLaneI64x2, 8", New: "storeOp, lane, opSize = ssa.OpcodeStore, ssa.VecLaneI64x2, 4", Rule: "R02.1", Substr: "OpcodeVecV128Store64Lane"},
 			{Name: "i64-load32-checked-as-2", File: "internal/engine/wazevo/frontend/lower.go", Old: "\t\tcase wasm.OpcodeI64Load32S, wasm.OpcodeI64Load32U:\n\t\t\topSize = 4\n", New: "\t\tcase wasm.OpcodeI64Load32S, wasm.OpcodeI64Load32U:\n\t\t\topSize = 2\n", Rule: "R02.1", Substr: "OpcodeI64Load32"},
 			{Name: "v128-load-without-check", File: "internal/engine/wazevo/frontend/lower.go", Old: "\t\t\taddr := c.memOpSetup(baseAddr, uint64(offset), 16)\n\t\t\tload := builder.AllocateInstruction()\n\t\t\tload.AsLoad(addr, offset, ssa.TypeV128)", New: "\t\t\taddr := builder.AllocateInstruction().AsIadd(c.getMemoryBaseValue(false), builder.AllocateInstruction().AsUExtend(baseAddr, 32, 64).Insert(builder).Return()).Insert(builder).Return()\n\t\t\tload := builder.AllocateInstruction()\n\t\t\tload.AsLoad(addr, offset, ssa.TypeV128)", Rule: "R02.1", Substr: "OpcodeVecV128Load "},
-			{Name: "atomic-rmw16-checked-as-1", File: "internal/engine/wazevo/frontend/lower.go", Old: "\t\t\t\tcase wasm.OpcodeAtomicI32Rmw16AddU, wasm.OpcodeAtomicI64Rmw16AddU:\n\t\t\t\t\trmwOp = ssa.AtomicRmwOpAdd\n\t\t\t\t\tsize = 2", New: "\t\t\t\tcase wasm.OpcodeAtomicI32Rmw16AddU, wasm.OpcodeAtomicI64Rmw16AddU:\n\t\t\t\t\trmwOp = ssa.AtomicRmwOpAdd\n\t\t\t\t\tsize = 1", Rule: "R02.1", Substr: "Rmw16AddU"},
+			{Name: "atomic-rmw16-checked-as-1", File: "internal/engine/wazevo/frontend/lower.go", Old: "\t\t\t\tcase wasm.OpcodeAtomicI32Rmw16AddU, wasm.OpcodeAtomicI64Rmw16AddU:\n\t\t\t\t\tsize = 2", New: "\t\t\t\tcase wasm.OpcodeAtomicI32Rmw16AddU, wasm.OpcodeAtomicI64Rmw16AddU:\n\t\t\t\t\tsize = 1", Rule: "R02.1", Substr: "Rmw16AddU"},
 			{Name: "reload-keeps-cached-addresses-for-imports", File: "internal/engine/wazevo/frontend/lower.go", Old: "\tc.resetAbsoluteAddressInSafeBounds()\n}\n\nfunc (c *Compiler) setWasmGlobalValue", New: "\tif c.offset.LocalMemoryBegin >= 0 {\n\t\tc.resetAbsoluteAddressInSafeBounds()\n\t}\n}\n\nfunc (c *Compiler) setWasmGlobalValue", Rule: "R02.2", Substr: "reload"},
 			{Name: "amd64-extend-kinds-swapped", File: "internal/engine/wazevo/backend/isa/amd64/lower_mem.go", Old: "\t\tcase constInst && op == ssa.OpcodeUExtend:\n\t\t\treturn addend{regalloc.VRegInvalid, int64(uint32(inputDef.Instr.ConstantVal())), 0}", New: "\t\tcase constInst && op == ssa.OpcodeUExtend:\n\t\t\treturn addend{regalloc.VRegInvalid, int64(int32(inputDef.Instr.ConstantVal())), 0}", Rule: "R02.3", Substr: "amd64"},
 			{Name: "arm64-extend-kinds-swapped", File: "internal/engine/wazevo/backend/isa/arm64/lower_mem.go", Old: "\t\t\t\toffset += int64(uint32(inputDef.Instr.ConstantVal()))", New: "\t\t\t\toffset += int64(int32(inputDef.Instr.ConstantVal()))", Rule: "R02.3", Substr: "arm64"},
@@ -1196,8 +1196,8 @@ func checkMemoryLengthWidth(c *core.Ctx) {
 		return found
 	}
 	n := 0
+	ord := map[string]int{}
 	core.AllFuncDecls(p, func(fd *ast.FuncDecl) {
-		ord := map[string]int{}
 		ast.Inspect(fd.Body, func(x ast.Node) bool {
 			call, ok := x.(*ast.CallExpr)
 			if !ok {
@@ -1238,9 +1238,12 @@ func checkMemoryLengthWidth(c *core.Ctx) {
 			default:
 				return true // the constant feeding an address computation (atomic loads of shared memories: always 8 bytes, R02.4)
 			}
-			ord[which]++
+			// keyed by what is loaded and how wide, not by the enclosing function: moving the code does not make a new
+			// finding, a further load of the same width does (ordinal)
+			ok2 := fmt.Sprintf("%s|%d", which, width)
+			ord[ok2]++
 			n++
-			construct := fmt.Sprintf("%s: load #%d of the byte length of the %s is 64 bits wide", fd.Name.Name, ord[which], which)
+			construct := fmt.Sprintf("%d-byte load #%d of the byte length of the %s is 64 bits wide", width, ord[ok2], which)
 			if width < 0 {
 				c.Undecided("R02.10", construct, call.Pos(), "load width not recognised")
 				return true
